@@ -13,6 +13,12 @@ for f in sys.argv[4:]:
         if not m: continue
         kv=dict(x.split('=',1) for x in m.group(3).split() if '=' in x)
         res[(m.group(1),m.group(2))]=(kv,m.group(3))   # later lines win (re-verification)
+# obligations that are already not ok on the unchanged tree (known findings) are not the seed's
+base=set()
+try:
+    bj=json.loads(subprocess.run(['/verif/bin/sdbcheck','dump','all','--bad','--json'],capture_output=True,text=True).stdout)
+    base=set(o['key'] for o in bj)
+except Exception: pass
 kept=0
 for (prop,k),(kv,raw) in sorted(res.items()):
     name='r%s-%s-%s'%(rnd,prop,k); d=os.path.join(SRC,prop,k)
@@ -26,6 +32,7 @@ for (prop,k),(kv,raw) in sorted(res.items()):
     except Exception: am={}
     o=subprocess.run(['/verif/tools/try_patch.sh',os.path.join(d,'patch.diff'),'all'],capture_output=True,text=True).stdout
     obs=[l.split()[1] for l in o.splitlines() if re.match(r'^(violation|undecided) ',l) and 'index.Int|' not in l]
+    obs=[x for x in obs if not any(b.startswith(x) for b in base)]
     rules=sorted(set(x.split('|')[0] for x in obs))
     meta={
       "id": name, "round": int(rnd), "property": prop,
